@@ -32,6 +32,7 @@ From FT Require Proofs.CoreTieBundle.
 From FT Require Proofs.EditWFEdge Proofs.EditWFNodeExample.
 From FT Require Model.EditCtor Proofs.EditCtor.
 From FT Require Gen.Accessors_gen Proofs.AccessorsTie.
+From FT Require Proofs.EditSegNone Proofs.EditSessionsToggle Proofs.EditSegNoneToggle.
 Import ListNotations.
 Open Scope Z_scope.
 
@@ -345,6 +346,24 @@ Proof. exact EditCtor.construct_any_session_WF. Qed.
 Theorem C07_accessors_are_generated : FT.Proofs.AccessorsTie.accessors_tie_statement.
 Proof. exact FT.Proofs.AccessorsTie.accessors_tie. Qed.
 
+(* ---- tracks without a label array never acquire one: along EVERY session - edits of the whole public
+        interface accepted or refused, undo, redo, queries, and feature switching with or without
+        recomputation, in any order and number - seg stays None; no hypothesis on the start state beyond
+        seg = None (Proofs/EditSegNone.v: the seven primitives, inv_action, every composite user action;
+        Proofs/EditSegNoneToggle.v: enable / disable leave the array field untouched whatever they return).
+        So the array-dependent clauses of C07 are vacuous exactly for the tracks they should be vacuous for,
+        and a stroke on such tracks is refused with the state unchanged. ---- *)
+Theorem C07_no_array_stays_none : forall ops st, seg st = None -> seg (run st ops) = None.
+Proof. exact FT.Proofs.EditSegNone.run_seg_none. Qed.
+Theorem C07_no_array_stays_none_switching : forall ops st, seg st = None ->
+  seg (FT.Proofs.EditSessionsToggle.run2 st ops) = None.
+Proof. exact FT.Proofs.EditSegNoneToggle.run2_seg_none. Qed.
+Example C07_no_array_nonvacuous :
+  seg (FT.Model.Edit.upd_seg ex0 None) = None /\
+  fst (snd (step (FT.Model.Edit.upd_seg ex0 None) (OPaint 5 2 [0; 1] 9 false))) <> 0 /\
+  seg (run (FT.Model.Edit.upd_seg ex0 None) [ODelEdge 1 2; OPaint 5 2 [0; 1] 9 false; OUndo; ORedo]) = None.
+Proof. vm_compute. repeat split; congruence. Qed.
+
 Example C07_ex0_W_seg : seg ex0 = Some sg0 /\ W_seg ex0 /\ ~ In KTime (rp_act (ft ex0)).
 Proof. split; [reflexivity|split; [exact ex0_W_seg|exact (proj1 ex0_cfg)]]. Qed.
 
@@ -443,3 +462,5 @@ Print Assumptions C07_core_is_generated.
 Print Assumptions C07_direct_add_node_refuted.
 Print Assumptions C07_sessions_from_any_construction.
 Print Assumptions C07_accessors_are_generated.
+Print Assumptions C07_no_array_stays_none.
+Print Assumptions C07_no_array_stays_none_switching.
